@@ -101,7 +101,7 @@ package model
 // ---- decision-maker.go: lookups
 
 //@ func FetchAlternative
-//@   property C01 C07 C09 C16 C20 C08
+//@   property C01 C07 C09 C16 C20 C08 C03 C04 C05 C06
 //@   panics_iff [unknown] !(exists k int :: 0 <= k && k < len(*a) && (*a)[k].Id == id)
 //@   ensures [first_match] exists k int :: 0 <= k && k < len(*a) && result == (*a)[k] && (*a)[k].Id == id && (forall j int :: 0 <= j && j < k ==> (*a)[j].Id != id)
 //@   loop 1 invariant [none_before] forall j int :: 0 <= j && j < iter ==> (*a)[j].Id != id
@@ -118,7 +118,7 @@ package model
 //@             (exists k int :: 0 <= k && k < len(*newOnes) && res[i] == (*newOnes)[k] && (forall j int :: 0 <= j && j < k ==> (*newOnes)[j].Id != (*old)[i].Id))
 
 //@ func FetchAlternatives
-//@   property C01 C09 C20 C07 C08
+//@   property C01 C09 C20 C07 C08 C03 C04 C05 C06
 //@   panics_iff [unknown] exists i int :: 0 <= i && i < len(*ids) && !(exists k int :: 0 <= k && k < len(*a) && (*a)[k].Id == (*ids)[i])
 //@   ensures [shape] fresh(result) && fresh(*result) && len(*result) == len(*ids) && cap(*result) == len(*ids)
 //@   ensures [matched] forall i int :: 0 <= i && i < len(*ids) ==> (*result)[i].Id == (*ids)[i] && (exists k int :: 0 <= k && k < len(*a) && (*result)[i] == (*a)[k])
@@ -136,6 +136,9 @@ package model
 // importance of a criterion under a listener (the weight its RankCriteriaAscending reports): uninterpreted
 //@ spec imp(l BiasListener, p *DecisionMakingParams, id string) real
 
+// rankedId(l, p, k): the id at place k of l's ascending ranking for p.  That a listener's ranking is a function of the request
+// (same request, same ranking, ties included) is assumed of every implementation, not proved ("assumes").
+//@ spec rankedId(l BiasListener, p *DecisionMakingParams, k int) string
 //@ ifacemethod BiasListener.RankCriteriaAscending
 //@   requires [distinct] distinctCriteria(params.Criteria)
 //@   requires [valid] validParams(self, params.MethodParameters)
@@ -144,9 +147,10 @@ package model
 //@   ensures forall k int :: 0 <= k && k < len(*result) ==> exists j int :: 0 <= j && j < len(params.Criteria) && (*result)[k].Criterion == params.Criteria[j]
 //@   ensures forall i int, j int :: 0 <= i && i < j && j < len(*result) ==> (*result)[i].Id != (*result)[j].Id && (*result)[i].Weight <= (*result)[j].Weight
 //@   ensures forall k int :: 0 <= k && k < len(*result) ==> (*result)[k].Weight == imp(self, params, (*result)[k].Id)
+//@   assumes [the_ranking_is_a_function_of_the_request] forall k int :: 0 <= k && k < len(*result) ==> (*result)[k].Id == rankedId(self, params, k)
 
 //@ func (*WeightedCriteria).Criteria
-//@   property C15 C07 C09 C20
+//@   property C15 C07 C09 C20 C16 C18 C19
 //@   ensures [same_order] fresh(result) && fresh(*result) && len(*result) == len(*w) && forall i int :: 0 <= i && i < len(*w) ==> (*result)[i] == (*w)[i].Criterion
 //@   loop 1 invariant [ctx] fresh(result) && len(result) == len(*w)
 //@   loop 1 invariant [copied] forall i int :: 0 <= i && i < iter ==> result[i] == (*w)[i].Criterion
@@ -167,7 +171,7 @@ package model
 //@   loop 1 invariant [zipped] forall i int :: 0 <= i && i < iter ==> (*c)[i].Id in *weights && weightedCriteria[i].Criterion == (*c)[i] && weightedCriteria[i].Weight == (*weights)[(*c)[i].Id]
 
 //@ func (*Criteria).SortByWeights
-//@   property C07 C15 C02 C09 C20
+//@   property C07 C15 C02 C09 C20 C16 C18 C19
 //@   panics_iff [missing] exists i int :: 0 <= i && i < len(*c) && !((*c)[i].Id in weights)
 //@   ensures [len_is_criteria] fresh(result) && fresh(*result) && len(*result) == len(*c)
 //@   ensures [members] forall k int :: 0 <= k && k < len(*result) ==> exists j int :: 0 <= j && j < len(*c) && (*result)[k].Criterion == (*c)[j] && (*result)[k].Weight == weights[(*c)[j].Id]
@@ -253,11 +257,11 @@ package model
 // ---- normalization.go
 
 //@ func GetScaleRatio
-//@   property C18 C19
+//@   property C18 C19 C20
 //@   nopanic
 //@   ensures [ratio] result == ((currentRange.Max - currentRange.Min) != 0.0 ? (target.Max - target.Min) / (currentRange.Max - currentRange.Min) : 0.0)
 //@ func GetNormalScaleRatio
-//@   property C19 C18
+//@   property C19 C18 C20
 //@   ensures [ratio] result == ((currentRange.Max - currentRange.Min) != 0.0 ? 1.0 / (currentRange.Max - currentRange.Min) : 0.0)
 //@ func ValuesRangeWithGroundZero
 //@   property C18 C09
@@ -353,6 +357,8 @@ package model
 //@   && (forall i int, j int :: 0 <= i && i < len(d.ConsideredAlternatives) && 0 <= j && j < len(d.NotConsideredAlternatives) ==> d.ConsideredAlternatives[i].Id != d.NotConsideredAlternatives[j].Id)
 //@ pred wellFormed(l BiasListener, d DecisionMakingParams) = coherent(l, d) && distinctAlts(d)
 
+// actsOn(b, out, in): the state out is the one bias b makes of the state in (each bias gives its own definition)
+//@ spec actsOn(b Bias, out *DecisionMakingParams, in *DecisionMakingParams) bool
 //@ ifacemethod Bias.Apply
 //@   requires [current_well_formed] current != nil && original != nil && wellFormed(*listener, *current)
 //@   requires [original_well_formed] wellFormed(*listener, *original) && len(original.Criteria) > 0
@@ -362,6 +368,7 @@ package model
 //@   ensures [parameters_cover] validParams(*listener, result.DMP.MethodParameters) && coversAll(*listener, result.DMP.MethodParameters, result.DMP.Criteria)
 //@   ensures [alternatives_distinct] distinctAlts(*result.DMP)
 //@   ensures [same_alternatives] sameAlts(*result.DMP, *current)
+//@   ensures [C07 C08 C16 made_of_the_current_state] actsOn(self, result.DMP, current)
 
 // ---- decision-maker.go: the bias pipeline (C07, C08)
 
@@ -375,7 +382,7 @@ package model
 //@      (*biases)[i].Props.ApplyProbability > draw(appfn(gen, dm.BiasApplyRandomSeed), i)
 
 //@ func (*DecisionMaker).processBiases
-//@   property C07 C08 C09 C20 C01
+//@   property C07 C08 C09 C20 C01 C15 C16 C17 C18 C19
 //@   fnparam biasApplyProbGenerator pure
 //@   fnparam generator ensures 0.0 <= result && result < 1.0
 //@   requires forall i int :: 0 <= i && i < len(*biases) ==> (*biases)[i].Bias != nil && (*biases)[i].Props != nil
@@ -400,6 +407,8 @@ package model
 //@             && result[i].(BiasParams).ApplyProbability == (*biases)[i].Props.ApplyProbability && !result[i].(BiasParams).Disabled
 //@   loop 1 invariant [not_fired] forall i int :: 0 <= i && i < iter && !fires(dm, biasApplyProbGenerator, biases, i) ==> isnil(result[i].(BiasParams).Props)
 //@   loop 1 invariant [untouched] (forall i int :: 0 <= i && i < iter ==> !fires(dm, biasApplyProbGenerator, biases, i)) ==> current == params
+//@   loop 1 hint [C07 C08 C16 each_bias_acts_on_the_state_the_previous_ones_left] (fires(dm, biasApplyProbGenerator, biases, i) ==> actsOn(*(*biases)[i].Bias, current, head(current)))
+//@             && (!fires(dm, biasApplyProbGenerator, biases, i) ==> current == head(current))
 
 //@ lemma [C08] probability_one_always_fires: forall p real, u real
 //@   requires 0.0 <= u && u < 1.0
@@ -447,7 +456,7 @@ package model
 //@   ensures forall l BiasListener :: listensFor(l, self) ==> validParams(l, result) && coversAll(l, result, dm.Criteria)
 
 //@ func (*DecisionMaker).prepareParams
-//@   property C07 C01 C20 C08 C09
+//@   property C07 C01 C20 C08 C09 C03 C04 C05 C06
 //@   requires preferenceFunction != nil
 //@   ensures [state] fresh(result) && result.Criteria == dm.Criteria
 //@   ensures [considered_are_chosen] len(result.ConsideredAlternatives) == len(dm.ChoseToMake) && fresh(result.ConsideredAlternatives)
